@@ -173,6 +173,55 @@ def install(I):
     E["typing.TypeVar"] = Builtin("TypeVar", lambda i, a, k: Opaque("TypeVar", (a[0],)))
     E["typing.Generic"] = obj
 
+    # ------------------------------------------------------------------ fasteners reader/writer lock
+    Lock = mkcls("InterProcessReaderWriterLock")
+    E["fasteners.InterProcessReaderWriterLock"] = Lock
+    I.LockCls = Lock
+    Lock.ns["__pyvc_new__"] = lambda i, cls, a, k: Obj(Lock, {"path": a[0] if a else None, "held": None}, tag="rwlock")
+    TR = "fasteners: acquire returns False only on timeout; readers-writer exclusion across processes (assumed)"
+
+    def _acq(kind):
+        def f(i, a, k):
+            lk = a[0]
+            timeout = k.get("timeout", a[2] if len(a) > 2 else None)
+            if lk.fields["held"] is not None:
+                raise Unsupported("nested lock acquisition in one process (outside the claim of C04)")
+            if timeout is not None:
+                if not i.st.branch(i.st.fresh("lock_acquired", z3.BoolSort()), "lock-acquired"):
+                    i.st.event("lock-timeout", lk, kind)
+                    return False
+            lk.fields["held"] = kind
+            i.st.event("acquire", lk, kind)
+            return True
+        return f
+
+    def _rel(kind):
+        def f(i, a, k):
+            lk = a[0]
+            if lk.fields["held"] != kind:
+                i.raise_py("RuntimeError", f"cannot release a {kind} lock that is not held")
+            lk.fields["held"] = None
+            i.st.event("release", lk, kind)
+        return f
+
+    Lock.ns["acquire_read_lock"] = Builtin("acquire_read_lock", _acq("read"), TR)
+    Lock.ns["acquire_write_lock"] = Builtin("acquire_write_lock", _acq("write"), TR)
+    Lock.ns["release_read_lock"] = Builtin("release_read_lock", _rel("read"), TR)
+    Lock.ns["release_write_lock"] = Builtin("release_write_lock", _rel("write"), TR)
+
+    def _lock_ctx(kind):
+        def f(i, a, k):
+            lk = a[0]
+            cm = Obj(LockCtx, {"lock": lk, "kind": kind}, tag="lockctx")
+            return cm
+        return f
+    LockCtx = mkcls("_LockCtx")
+    meth(LockCtx, "__enter__")(lambda i, a, k: _acq(a[0].fields["kind"])(i, [a[0].fields["lock"]], {}))
+    meth(LockCtx, "__exit__")(lambda i, a, k: (_rel(a[0].fields["kind"])(i, [a[0].fields["lock"]], {}), False)[1])
+    Lock.ns["write_lock"] = Builtin("write_lock", _lock_ctx("write"), TR)
+    Lock.ns["read_lock"] = Builtin("read_lock", _lock_ctx("read"), TR)
+    E["fasteners.InterProcessLock"] = Lock
+
     from . import filemodel
     filemodel.install(I, mkcls, meth)
     from . import npmodel
